@@ -111,8 +111,7 @@ func (c CtrlRec) tlv() *TLV {
 	}
 	switch c.Kind {
 	case "paging":
-		inner := tSeq(tInt(int64(c.PageSize)), tOctet(string(c.Cookie)))
-		k = append(k, tOctet(string(inner.Enc())))
+		k = append(k, tWrap(tSeq(tInt(int64(c.PageSize)), tOctet(string(c.Cookie)))))
 	case "behera":
 		var inner *TLV
 		switch {
@@ -124,7 +123,7 @@ func (c CtrlRec) tlv() *TLV {
 			inner = tSeq(tCtxPrim(1, encInt(c.ErrCode)))
 		}
 		if inner != nil {
-			k = append(k, tOctet(string(inner.Enc())))
+			k = append(k, tWrap(inner))
 		}
 	case "vchuwarn":
 		k = append(k, tOctet(strconv.FormatInt(c.Expire, 10)))
